@@ -209,8 +209,11 @@ func c06MatchedFlag(r *an.Run) {
 			r.Check(good, short(f)+"|replace-error", c.Pos(), "when Change.Replace fails, Apply returns matched == false (the file is left untouched)")
 			stored := false
 			for _, in := range an.FollowJumps(cse.Else).Instrs {
-				if st, isSt := in.(*ssa.Store); isSt && an.Path(st.Addr) == "r.errors" && derivesFrom(st.Val, errv[0]) {
-					stored = true
+				if st, isSt := in.(*ssa.Store); isSt && derivesFrom(st.Val, errv[0]) {
+					// the runner's error list: a field of the receiver (whatever the receiver is called)
+					if fa, isFA := st.Addr.(*ssa.FieldAddr); isFA && isRunnerErrors(r, fa) && recvValue(f) != nil && fa.X == ssa.Value(recvValue(f)) {
+						stored = true
+					}
 				}
 			}
 			r.Check(stored, short(f)+"|replace-error-recorded", c.Pos(), "the failure is appended to the runner's errors")
